@@ -985,5 +985,136 @@ theorem c05_joined_rules_witness :
     selectProxyJoined (flagCfg flagExclList) (bs "partner.test") = selectProxy (flagCfg flagExclList) (bs "partner.test") := by
   with_unfolding_all decide
 
+/-! ## K. An upstream proxy is its full address: scheme, host AND port
+
+The CONNECT path tunnels a request through a dialer made from the proxy URL selected for that request
+(`dialerFor`).  Nothing about an upstream is remembered: two upstreams that differ in scheme, host or
+port are different hops whatever the instance served before. -/
+
+/-- a CONNECT for which the proxy function selected the `http` / `https` upstream `u` goes through the
+    dialer of `u` itself: the kind of `u`'s scheme, to `u`'s host:port -/
+theorem c05_connect_dialer_of_selected {rc : RouteCfg} {authority : Bytes} {u : ProxyURL}
+    (hsel : selectProxy rc (hostname authority) = .ok (some u)) (hs : u.scheme = bs "http" ∨ u.scheme = bs "https") :
+    routeConnect rc authority = .ok (dialerFor u).hop := by
+  rw [c05_connect_dispatch rc authority u hsel]
+  unfold dialerFor Dialer.hop
+  rcases hs with h | h
+  · simp only [h, schemeTests.1.1, schemeTests.1.2.1, if_true, Bool.false_eq_true, if_false]
+  · simp only [h, schemeTests.2.1.1, schemeTests.2.1.2.1, if_true, Bool.false_eq_true, if_false]
+
+/-- the hop of a dialer determines scheme and host:port of its `http` / `https` upstream, and is determined by them -/
+theorem c05_dialer_hop_injective {u u' : ProxyURL} (hs : u.scheme = bs "http" ∨ u.scheme = bs "https")
+    (hs' : u'.scheme = bs "http" ∨ u'.scheme = bs "https") :
+    (dialerFor u).hop = (dialerFor u').hop ↔ u.scheme = u'.scheme ∧ u.host = u'.host := by
+  have hne : bs "http" ≠ bs "https" := by with_unfolding_all decide
+  unfold dialerFor Dialer.hop
+  rcases hs with h | h <;> rcases hs' with h' | h'
+  · simp [h, h', schemeTests.1.2.1]
+  · simp only [h, h', schemeTests.1.2.1, schemeTests.2.1.2.1, if_true, Bool.false_eq_true, if_false, Hop.viaProxy.injEq]
+    constructor
+    · intro hc; exact absurd hc.1 (by decide)
+    · intro hc; exact absurd hc.1 hne
+  · simp only [h, h', schemeTests.1.2.1, schemeTests.2.1.2.1, if_true, Bool.false_eq_true, if_false, Hop.viaProxy.injEq]
+    constructor
+    · intro hc; exact absurd hc.1 (by decide)
+    · intro hc; exact absurd hc.1.symm hne
+  · simp [h, h', schemeTests.2.1.2.1]
+
+/-- two upstreams that differ in scheme, host or port are DISTINCT hops in every history: whatever the
+    instance served before either request (`pre`, `pre'`), from whatever state, and whatever follows, the
+    CONNECT for which `u` is selected goes to `u`'s own hop, the one for which `u'` is selected to
+    `u'`'s own, and these are different — neither can be delivered where the other one goes -/
+theorem c05_upstream_keyed_by_full_address (c : InstCfg) (st st' : InstState) (pre post pre' post' : List RouteReq)
+    (q q' : RouteReq) (u u' : ProxyURL) (hq : q.connect = true) (hq' : q'.connect = true)
+    (hsel : selectProxy (c.at q) (hostname q.urlHost) = .ok (some u))
+    (hsel' : selectProxy (c.at q') (hostname q'.urlHost) = .ok (some u'))
+    (hs : u.scheme = bs "http" ∨ u.scheme = bs "https") (hs' : u'.scheme = bs "http" ∨ u'.scheme = bs "https")
+    (hdiff : u.scheme ≠ u'.scheme ∨ hostname u.host ≠ hostname u'.host ∨ urlPort u.host ≠ urlPort u'.host) :
+    (runSeq c st (pre ++ q :: post))[pre.length]? = some (.ok (dialerFor u).hop) ∧
+    (runSeq c st' (pre' ++ q' :: post'))[pre'.length]? = some (.ok (dialerFor u').hop) ∧
+    (dialerFor u).hop ≠ (dialerFor u').hop := by
+  refine ⟨?_, ?_, ?_⟩
+  · rw [c05_history_independent]
+    simp only [route, hq, if_true, c05_connect_dialer_of_selected hsel hs]
+  · rw [c05_history_independent]
+    simp only [route, hq', if_true, c05_connect_dialer_of_selected hsel' hs']
+  · intro heq
+    obtain ⟨h1, h2⟩ := (c05_dialer_hop_injective hs hs').mp heq
+    rcases hdiff with h | h | h
+    · exact h h1
+    · exact h (by rw [h2])
+    · exact h (by rw [h2])
+
+def famScript : UrlScript :=
+  { rules := [⟨.hostIs (bs "a.test"), .ok (bs "PROXY gw.test:3128")⟩,
+              ⟨.hostIs (bs "b.test"), .ok (bs "PROXY gw.test:3129")⟩,
+              ⟨.hostIs (bs "c.test"), .ok (bs "HTTPS gw.test:3443")⟩,
+              ⟨.hostIs (bs "d.test"), .ok (bs "HTTPS gw.test:3444")⟩],
+    dflt := .ok (bs "PROXY alt.test:3128") }
+
+def famInst : InstCfg := { rc := { base := .pac {} }, script := some famScript }
+
+def famReqs : List RouteReq :=
+  [{ connect := true, urlHost := bs "a.test:443" }, { connect := true, urlHost := bs "b.test:443" },
+   { connect := true, urlHost := bs "c.test:443" }, { connect := true, urlHost := bs "d.test:443" },
+   { connect := true, urlHost := bs "e.test:443" }, { connect := true, urlHost := bs "b.test:443" },
+   { connect := true, urlHost := bs "a.test:443" }]
+
+-- the hypotheses are met by a script that spreads its targets over one gateway's ports (same host, other port;
+-- same host, other scheme and port; same port, other host), and the sequence visits them in both orders
+example : selectProxy (famInst.at famReqs[0]) (hostname famReqs[0].urlHost) = .ok (some { scheme := bs "http", host := bs "gw.test:3128" }) ∧
+    selectProxy (famInst.at famReqs[1]) (hostname famReqs[1].urlHost) = .ok (some { scheme := bs "http", host := bs "gw.test:3129" }) ∧
+    hostname (bs "gw.test:3128") = hostname (bs "gw.test:3129") ∧ urlPort (bs "gw.test:3128") ≠ urlPort (bs "gw.test:3129") ∧
+    runSeq famInst {} famReqs =
+      [.ok (.viaProxy .http (bs "gw.test:3128")), .ok (.viaProxy .http (bs "gw.test:3129")), .ok (.viaProxy .https (bs "gw.test:3443")),
+       .ok (.viaProxy .https (bs "gw.test:3444")), .ok (.viaProxy .http (bs "alt.test:3128")), .ok (.viaProxy .http (bs "gw.test:3129")),
+       .ok (.viaProxy .http (bs "gw.test:3128"))] := by
+  with_unfolding_all decide
+
+/-- keeping dialers in a map under `key` hands every request of every sequence the dialer of its own
+    upstream exactly when two upstreams with one key have one dialer … -/
+theorem c05_dialer_memo_sound_iff {κ : Type} [DecidableEq κ] (key : ProxyURL → κ) :
+    (∀ us, connectDialersMemo key us = connectDialers us) ↔ (∀ u u', key u = key u' → dialerFor u' = dialerFor u) := by
+  unfold connectDialersMemo connectDialers
+  constructor
+  · intro h u u' hk
+    have := h [u, u']
+    simp only [memoRun, assoc, if_true, hk, List.map_cons, List.map_nil, List.cons.injEq, and_true, true_and] at this
+    exact this.symm
+  · intro hs us
+    exact memoRun_eq_map (fun q q' hk _ => hs q q' hk) [] (by intro e he; cases he) us
+
+/-- … which the full address (scheme, host:port, credentials) as key satisfies -/
+theorem c05_full_address_key_sound (us : List ProxyURL) : connectDialersMemo keyFullAddress us = connectDialers us := by
+  refine (c05_dialer_memo_sound_iff keyFullAddress).mpr ?_ us
+  intro u u' hk
+  simp only [keyFullAddress, Prod.mk.injEq] at hk
+  unfold dialerFor authValue
+  rw [hk.1, hk.2.1, hk.2.2]
+
+def famUpstreams : List ProxyURL :=
+  [{ scheme := bs "http", host := bs "gw.test:3128", user := some (bs "tenant-a", bs "pa") },
+   { scheme := bs "http", host := bs "gw.test:3129", user := some (bs "tenant-b", bs "pb") },
+   { scheme := bs "https", host := bs "gw.test:3443" }, { scheme := bs "https", host := bs "gw.test:3444" },
+   { scheme := bs "http", host := bs "alt.test:3128" }, { scheme := bs "http", host := bs "gw.test:3128", user := some (bs "tenant-a", bs "pa") }]
+
+/-- … and a key without the port (scheme and host NAME, what the dialer's TLS configuration is bound
+    to) does not: once a tunnel went through `gw.test:3128`, the requests for `gw.test:3129` are dialled
+    to `gw.test:3128` with the first tenant's credentials, and those for the TLS proxy on port 3444 go to
+    port 3443 — the hop depends on the history, while the dialers built per request go where `route` says -/
+theorem c05_hostname_memo_witness :
+    (connectDialersMemo keySchemeHostname famUpstreams).map (·.hop) =
+      [.viaProxy .http (bs "gw.test:3128"), .viaProxy .http (bs "gw.test:3128"), .viaProxy .https (bs "gw.test:3443"),
+       .viaProxy .https (bs "gw.test:3443"), .viaProxy .http (bs "alt.test:3128"), .viaProxy .http (bs "gw.test:3128")] ∧
+    (connectDialers famUpstreams).map (·.hop) =
+      [.viaProxy .http (bs "gw.test:3128"), .viaProxy .http (bs "gw.test:3129"), .viaProxy .https (bs "gw.test:3443"),
+       .viaProxy .https (bs "gw.test:3444"), .viaProxy .http (bs "alt.test:3128"), .viaProxy .http (bs "gw.test:3128")] ∧
+    ((connectDialersMemo keySchemeHostname famUpstreams)[1]?.map (·.auth)) = ((connectDialers famUpstreams)[0]?.map (·.auth)) ∧
+    ((connectDialersMemo keySchemeHostname famUpstreams)[1]?.map (·.auth)) ≠ ((connectDialers famUpstreams)[1]?.map (·.auth)) ∧
+    -- the other visiting order sends the first tenant's tunnels to the second one's port
+    (connectDialersMemo keySchemeHostname (famUpstreams.take 2).reverse).map (·.hop) =
+      [.viaProxy .http (bs "gw.test:3129"), .viaProxy .http (bs "gw.test:3129")] := by
+  with_unfolding_all decide
+
 end C05
 end FwdVerif
